@@ -122,7 +122,11 @@ def datatype_contracts(tier, seed):
                         l0, ldt = np.array(lhs), lhs.dtype
                         alias = lhs
                         x = lhs
-                        x += rhs
+                        try:
+                            x += rhs
+                        except Exception as e:  # value semantics: `x += y` rebinds x to x + y, which exists for every pair of dtypes
+                            check(f'{tag}:iadd_mixed_dtype[{ldt}+={rhs.dtype}]:is_x_plus_y_for_every_dtype_pair', False, repr(e)[:160])
+                            continue
                         check(f'{tag}:iadd_mixed_dtype[{ldt}+={rhs.dtype}]:other_name_unchanged', np.array_equal(alias, l0) and alias.dtype == ldt and np.allclose(np.asarray(x), l0 + np.asarray(rhs)))
                 # out= must not write into a mesh that another name refers to
                 tgt = rand(cls, shape, dt)
